@@ -45,7 +45,9 @@ EXTENDS Sequences, Naturals, FiniteSets, TLC, Json
 CONSTANTS T,          \* entry life time in ticks
           DbIds,      \* ids (DomTab) of the hashes the service may know
           EmitOn,     \* print edges
-          ImplOnly    \* explore only the choices of the implementation model (gen)
+          ImplOnly,   \* explore only the choices of the implementation model (gen)
+          ImplNegAgain \* implementation model: negative answers are remembered
+                      \* again after a prefix's first entry has expired
 
 VARIABLES db,     \* set of hashes the service knows now
           cache,  \* prefix -> [ttl, hs]
@@ -120,7 +122,10 @@ DbU == {HOfId(i) : i \in DbIds}
 \* expired entry is never removed from that store -- so once a prefix has
 \* had an entry, later negative answers for it are not remembered and the
 \* prefix is asked again at every check.  (More questions than necessary,
-\* still nothing but prefixes and the same verdicts: admissible.)
+\* still nothing but prefixes and the same verdicts: admissible.)  The
+\* orchestrator finds out with a five-step calibration walk whether the tree
+\* under test behaves like this (ImplNegAgain = FALSE) or remembers negative
+\* answers every time (TRUE) and picks the .cfg accordingly.
 \*   impl.present  prefixes that have some entry, usable or expired, in the
 \*                 implementation's store
 \*   impl.held     prefixes whose usable entry of `cache' the implementation
@@ -132,7 +137,9 @@ ImplQ(n) ==
     ELSE {n.h[k].p : k \in {j \in RefC(n) : ~ImplUsable(n.h[j].p)}}
 ImplStore(Q, rcv) ==
     [present |-> impl.present \cup Q,
-     held    |-> (impl.held \ Q) \cup {p \in Q : (\E x \in rcv : x.p = p) \/ p \notin impl.present}]
+     held    |-> (impl.held \ Q) \cup {p \in Q : \/ \E x \in rcv : x.p = p
+                                                \/ p \notin impl.present
+                                                \/ ImplNegAgain}]
 ImplAdmissible ==
     \A n \in Names : Admissible(n, RefC(n), cache, db, ImplQ(n))
 
@@ -146,7 +153,7 @@ St(d, c, i) == [db |-> Ids(d), c |-> [p \in Prefixes |-> <<c[p].ttl, Ids(c[p].hs
 Emit(rec) == IF EmitOn THEN PrintT(<<"@@V", ToJson(rec)>>) ELSE TRUE
 
 \* The universe, printed once for the harness (names, collision pattern).
-ASSUME EmitOn => PrintT(<<"@@V", ToJson([universe |-> [names |-> Names, doms |-> DomTab,
+ASSUME PrintT(<<"@@V", ToJson([universe |-> [names |-> Names, doms |-> DomTab,
                                                       prefixes |-> Prefixes, dbu |-> Ids(DbU), t |-> T]])>>)
 
 Init == /\ db \in SUBSET DbU
